@@ -54,6 +54,31 @@ def core_scalars():
     return [N(2), N(-0.0), N(math.inf), S("b"), B(True), B(False), NULL, R(("a", N(1)))]
 
 
+def random_double(rng):
+    """doubles spread over the whole format: random bit patterns, small integers, decimal fractions,
+    neighbours of powers of two, subnormals, huge values (NaN payloads are canonicalised)"""
+    t = rng.below(8)
+    if t == 0:
+        x = bits2f(rng.next())
+    elif t == 1:
+        x = float(rng.below(2001) - 1000)
+    elif t == 2:
+        x = (rng.below(20001) - 10000) / 1000.0
+    elif t == 3:
+        x = bits2f((rng.below(2047) << 52) + rng.choice([0, 1, 2, (1 << 52) - 1, (1 << 52) - 2, 1 << 51]))
+    elif t == 4:
+        x = bits2f(rng.below(1 << 52))                      # subnormal or zero
+    elif t == 5:
+        x = bits2f((0x7fe << 52) + rng.below(1 << 52))      # near overflow
+    elif t == 6:
+        x = bits2f(((1023 + rng.below(64) - 32) << 52) + rng.below(1 << 52))
+    else:
+        x = float(rng.below(1 << 53)) * (1 if rng.chance(1, 2) else -1)
+    if rng.chance(1, 2):
+        x = -x
+    return math.nan if x != x else x
+
+
 def lists_upto(pool, n):
     out = [[]]
     frontier = [[]]
@@ -313,6 +338,18 @@ def main(argv):
             # mostly element-wise compatible (same family), sometimes one foreign element
             m = V("list", [rng.choice(fam) if rng.chance(9, 10) else rng.choice(E) for _ in range(k)])
             cases.append((l, m, "E list op list, equal length 3..8, sampled"))
+    # random doubles: the IEEE-754 clause on numbers outside the fixed pool, in all shapes
+    n_rd = 250 if not thorough else 4000
+    for _ in range(n_rd):
+        x, y, z = N(random_double(rng)), N(random_double(rng)), N(random_double(rng))
+        cases.append((x, y, "F random doubles, scalar x scalar"))
+        t = rng.below(3)
+        if t == 0:
+            cases.append((L(x, z), y, "F random doubles, list op scalar"))
+        elif t == 1:
+            cases.append((y, L(x, z), "F random doubles, scalar op list"))
+        else:
+            cases.append((L(x, z), L(y, x), "F random doubles, list op list"))
     # de-duplicate, keep order
     seen = set()
     uniq = []
@@ -323,9 +360,33 @@ def main(argv):
             uniq.append((a, b, g))
     cases = uniq
 
-    # ---- powf oracle table (same std function) for every ordered pair of pool numbers
-    numbits = sorted({f2bits(x.p) for x in E if x.k == "num"} | {f2bits(1.0), f2bits(2.0)})
-    plines = ["%016x %016x" % (x, y) for x in numbits for y in numbits]
+    # element pairs the law needs the implementation's own answer for
+    def elem_pairs(a, b):
+        if a.k == "list" and b.k == "list":
+            return list(zip(a.p, b.p)) if len(a.p) == len(b.p) else []
+        if a.k == "list":
+            return [(x, b) for x in a.p]
+        if b.k == "list":
+            return [(a, y) for y in b.p]
+        return [(a, b)]
+
+    tpairs = [(x, y) for x in E for y in E]
+    tseen = {(x.src(), y.src()) for x, y in tpairs}
+    for a, b, _ in cases:
+        for x, y in elem_pairs(a, b):
+            for u, v in ((x, y), (x, NULL)):
+                if (u.src(), v.src()) not in tseen:
+                    tseen.add((u.src(), v.src()))
+                    tpairs.append((u, v))
+
+    # ---- powf oracle table (same std function) for every ordered pair of numbers that can meet
+    poolbits = sorted({f2bits(x.p) for x in E if x.k == "num"} | {f2bits(1.0), f2bits(2.0)})
+    numpairs = {(x, y) for x in poolbits for y in poolbits}
+    for x, y in tpairs:
+        if x.k == "num" and y.k == "num":
+            numpairs.add((f2bits(x.p), f2bits(y.p)))
+    numpairs = sorted(numpairs)
+    plines = ["%016x %016x" % (x, y) for x, y in numpairs]
     pouts = c.harness_lines_resilient(h, "c11-powf", plines)
     powf = {}
     for pl, po in zip(plines, pouts):
@@ -337,7 +398,6 @@ def main(argv):
             return res.finish()
 
     # ---- implementation: element table (all ordered pairs of the element pool) and the cases
-    tpairs = [(x, y) for x in E for y in E]
     touts = c.harness_lines_resilient(h, "c11-binop", [line_of(x, y) for x, y in tpairs])
     T = {}
     for (x, y), o in zip(tpairs, touts):
@@ -378,7 +438,8 @@ def main(argv):
             defs.append("Definition e%d : value := Eval vm_compute in %s." % (i, x.coq()))
     defs.append("Definition PT : list (Z * Z * Z) := [%s]."
                 % "; ".join("(0x%016x, 0x%016x, 0x%016x)" % (x, y, r) for (x, y), r in sorted(powf.items())))
-    defs.append("Definition P := powf_of_table PT.")
+    defs.append("Definition PTm : ptab := Eval vm_compute in ptab_of_list PT.")
+    defs.append("Definition P := powf_of_ptab PTm.")
 
     def cq(v):
         if v.src() in names:
@@ -506,24 +567,24 @@ def main(argv):
     # scalar semantics against the python reference (IEEE doubles of the host, fmod, string +, ...)
     sc_checked = 0
     sc_fail = 0
-    for x in SC:
-        for y in SC:
-            row = T[(x.src(), y.src())]
-            if len(row) != len(OPS):
-                continue
-            for opi, op in enumerate(OPS):
-                exp = py_scalar(op, x, y, powf)
-                sc_checked += 1
-                if row[opi] != exp:
-                    sc_fail += 1
-                    if sc_fail <= 5:
-                        res.violation("scalar operator semantics: `a %s b` on two non-list values is not the "
-                                      "IEEE-754 / ordering / boolean / ?? result" % op,
-                                      {"kind": "impl-scalar", "a": x.src(), "b": y.src(), "op": op,
-                                       "observed": row[opi], "expected": exp,
-                                       "expected_from": "reference semantics in checks/c11.py:py_scalar",
-                                       "rerun": rerun_hint(x, y, op)})
-
+    for x, y in tpairs:
+        if x.k == "list" or y.k == "list":
+            continue
+        row = T[(x.src(), y.src())]
+        if len(row) != len(OPS):
+            continue
+        for opi, op in enumerate(OPS):
+            exp = py_scalar(op, x, y, powf)
+            sc_checked += 1
+            if row[opi] != exp:
+                sc_fail += 1
+                if sc_fail <= 5:
+                    res.violation("scalar operator semantics: `a %s b` on two non-list values is not the "
+                                  "IEEE-754 / ordering / boolean / ?? result" % op,
+                                  {"kind": "impl-scalar", "a": x.src(), "b": y.src(), "op": op,
+                                   "observed": row[opi], "expected": exp,
+                                   "expected_from": "reference semantics in checks/c11.py:py_scalar",
+                                   "rerun": rerun_hint(x, y, op)})
     c.log("law search done %.1fs" % (time.time() - t0))
     # ---- known findings (none open for C11 at the time of writing)
     for k in c.open_known(PID):
